@@ -2,6 +2,9 @@ module verif/harness
 
 go 1.13
 
-require github.com/honeytrap/honeytrap v0.0.0
+require (
+	github.com/honeytrap/honeytrap v0.0.0
+	golang.org/x/crypto v0.0.0-20200128174031-69ecbb4d6d5d
+)
 
 replace github.com/honeytrap/honeytrap => /repo
